@@ -244,6 +244,12 @@ def opid(F, rep):
                     rep.add(Finding("OPID", "OPID|emit_expr|UnaryOp::%s" % v,
                                     "UnaryOp::%s is emitted with tokens %s; expected %s" % (v, toks, want),
                                     file=ee.file, line=best["ln"], fn=ee.path))
+    compound_tables(F, rep, "OPID")
+
+
+def compound_tables(F, rep, rule):
+    """The CompoundOp -> BinaryOp copies (parser x2, checker, lowering) are the identity on names: `x op= y` means
+    `x = x op y` in every phase. Shared with C07 (the checker's copy decides the numeric result type of `/=`)."""
     # CompoundOp -> BinaryOp copies
     n = 0
     for p, f in F.fns.items():
@@ -266,12 +272,12 @@ def opid(F, rep):
                     continue
                 ok = bool(aggs) and all(a == v for a in aggs)
                 inst = "%s@%s:%s" % (p.split("::")[-1], s["ln"], v)
-                rep.oblige("OPID", "compound:" + inst, ok)
+                rep.oblige(rule, "compound:" + inst, ok)
                 if not ok:
-                    rep.add(Finding("OPID", "OPID|compound|%s|%s" % (p.split("::")[-1], v),
+                    rep.add(Finding(rule, rule + "|compound|%s|%s" % (p.split("::")[-1], v),
                                     "CompoundOp::%s is desugared to %s in %s; `x %s= y` must mean `x = x %s y`"
                                     % (v, aggs, p.split("::")[-1], v, v), file=f.file, line=s["ln"], fn=p))
-    rep.floor("OPID", "CompoundOp -> BinaryOp tables (parser x2, checker, lowering)", n, 4)
+    rep.floor(rule, "CompoundOp -> BinaryOp tables (parser x2, checker, lowering)", n, 4)
 
 
 def group(F, rep):
